@@ -23,12 +23,15 @@ pub enum Op {
     OutSmallFee,
     OutAll,
     OutTooMuch,
+    /// a payment from the wallet's key built elsewhere (another device) and relayed through this
+    /// node: registered as pending like every own-key transaction the node sends out
+    OutExternal,
     Block,
     ReorgAway1,
     ReorgAway2,
     ReorgBack,
 }
-pub const OPS: [Op; 10] = [Op::Block, Op::In1, Op::OutSmall, Op::In2, Op::OutSmallFee, Op::OutAll, Op::OutTooMuch, Op::ReorgAway1, Op::ReorgAway2, Op::ReorgBack];
+pub const OPS: [Op; 11] = [Op::Block, Op::In1, Op::OutSmall, Op::In2, Op::OutSmallFee, Op::OutAll, Op::OutTooMuch, Op::OutExternal, Op::ReorgAway1, Op::ReorgAway2, Op::ReorgBack];
 
 struct W {
     p: Prod,
@@ -36,6 +39,8 @@ struct W {
     /// inputs of transactions the wallet built that are not yet confirmed on the chain
     committed: BTreeSet<SaitoUTXOSetKey>,
     reorged: bool,
+    /// built transactions are registered as pending in the wallet (the node's send path)
+    pending_registered: bool,
     /// abandoned chain (to re-wind to)
     abandoned: Option<Vec<Vec<u8>>>,
     ctr: u64,
@@ -43,7 +48,7 @@ struct W {
 
 fn init(g: u64) -> Result<W, String> {
     let p = Prod::new(g, 5000, 0)?;
-    Ok(W { p, g, committed: BTreeSet::new(), reorged: false, abandoned: None, ctr: 0 })
+    Ok(W { p, g, committed: BTreeSet::new(), reorged: false, pending_registered: g != 3, abandoned: None, ctr: 0 })
 }
 
 fn peer_block_on(w: &mut W, chain: &[Vec<u8>], salt: u64) -> Result<Vec<u8>, String> {
@@ -192,8 +197,37 @@ fn apply(w: &mut W, op: Op, rep: &mut Report, hist: &[Op]) -> bool {
                 w.committed.insert(k);
             }
             rep.outcome("wallet-tx-built");
+            // as the node does when it sends its own transaction out (Network::propagate_transaction):
+            // the wallet keeps it as pending until a block carries it
+            if w.pending_registered {
+                let wl = w.p.node.wallet.clone();
+                let mut tt = t.clone();
+                tt.generate(&w.p.node.key.public, 0, 0);
+                let _ = run(async move {
+                    let mut wal = wl.write().await;
+                    wal.add_to_pending(tt);
+                });
+            }
             let _ = w.p.submit(t);
             true
+        }
+        Op::OutExternal => {
+            let me = w.p.node.key;
+            let g = w.g;
+            let h = w.p.tip_id + 1;
+            let pooled: BTreeSet<SaitoUTXOSetKey> = w.p.node.obs().pool_utxo_map.into_iter().collect();
+            let Some(sl) = w.p.ledger.unspent_of(&me.public).into_iter().filter(|s| s.block_id + g > h + 1 && s.amount > 10_000 && !pooled.contains(&s.get_utxoset_key()) && !w.committed.contains(&s.get_utxoset_key())).min_by_key(|s| s.amount) else { return false };
+            w.ctr += 1;
+            let mut t = make_tx(&[sl.clone()], &[(key(2).public, 4_000 + w.ctr), (me.public, sl.amount - 4_000 - w.ctr)], &me, w.p.tip_ts + 7, b"external");
+            t.generate(&me.public, 0, 0);
+            let wl = w.p.node.wallet.clone();
+            let tt = t.clone();
+            let _ = run(async move {
+                let mut wal = wl.write().await;
+                wal.add_to_pending(tt);
+            });
+            rep.outcome("external-own-key-payment-relayed");
+            matches!(w.p.submit(t), Outcome::Done(true))
         }
         Op::Block => {
             let ts = w.p.tip_ts + 2 * hb;
@@ -409,7 +443,7 @@ pub fn main(tier: Tier, _replay: Option<String>) -> i32 {
         rep.outcome_n(&format!("g{}:level-{}-new-states", g, level), next.len() as u64);
         // keep the frontier tractable: beyond depth 4 continue only from histories that contain
         // at most two non-Block operations in a row (documented cap)
-        if level >= 4 && next.len() > cap {
+        if level >= 4 && level < depth && next.len() > cap {
             rep.exhaustive = false;
             next.truncate(cap);
             rep.extra.insert("frontier_cap".into(), json!({"level": level, "kept": cap}));
